@@ -12,7 +12,7 @@ OUT=$R/out$TAG; EV=$R/ev$TAG; EO=$R/evout$TAG; LOG=$R/evlog/$TAG
 [ -f $OUT/patch.diff ] || { echo "no patch.diff in $OUT"; exit 2; }
 mkdir -p $LOG; rm -rf $EO; mkdir -p $EO
 git -C /repo worktree remove --force $EV 2>/dev/null
-git -C /repo worktree add -q --detach $EV HEAD || exit 2
+git -C /repo worktree add -q --detach $EV ${SEED_BASE:-HEAD} || exit 2   # SEED_BASE: the commit the change was written against, when a later fix touches the same lines
 cd $EV
 if [ -z "${SKIP_CONFIRM:-}" ]; then
   if [ -f $OUT/demo.sh ]; then bash $OUT/demo.sh > $LOG/demo_clean.log 2>&1; echo "confirm: demo on clean tree exit $?"; fi
